@@ -15,8 +15,8 @@
 #include <limits>
 #include <iostream>
 namespace sym {
-enum Op { CONST, VAR, ADD, SUB, MUL, DIV, NEG, SIN, COS, TAN, ASIN, ACOS, ATAN, ATAN2, SQRT, EXP, LOG, CBRT, ROUND };
-inline const char* opname(Op o){ static const char* n[]={"const","var","add","sub","mul","div","neg","sin","cos","tan","asin","acos","atan","atan2","sqrt","exp","log","cbrt","round"}; return n[o]; }
+enum Op { CONST, VAR, ADD, SUB, MUL, DIV, NEG, SIN, COS, TAN, ASIN, ACOS, ATAN, ATAN2, SQRT, EXP, LOG, CBRT, ROUND, ABS };
+inline const char* opname(Op o){ static const char* n[]={"const","var","add","sub","mul","div","neg","sin","cos","tan","asin","acos","atan","atan2","sqrt","exp","log","cbrt","round","abs"}; return n[o]; }
 struct Node { Op op; int a, b; double c; std::string name; double val; };
 struct Decision { int a; int cmp; int b; bool taken; }; // cmp: 0 '<', 1 '<=', 2 '='
 struct PathLimit : std::runtime_error { PathLimit(): std::runtime_error("path decision limit") {} };
@@ -173,7 +173,8 @@ inline bool operator<=(const Real& a, const Real& b){ return cmp(1,a,b,a.val()<=
 inline bool operator>=(const Real& a, const Real& b){ return cmp(1,b,a,b.val()<=a.val()); }
 inline bool operator==(const Real& a, const Real& b){ return cmp(2,a,b,a.val()==b.val()); }
 inline bool operator!=(const Real& a, const Real& b){ return !(a==b); }
-inline Real abs(const Real& a){ if (a.isConst()) return Real(std::fabs(a.val())); if (ctx().nodes[a.id].op==NEG) { Real p=Real::from(ctx().nodes[a.id].a); return (p < Real(0.0)) ? a : p; } return (a < Real(0.0)) ? -a : a; }
+// |a| is a node of its own (no branch): canonicalised on the argument without its sign
+inline Real abs(const Real& a){ if (a.isConst()) return Real(std::fabs(a.val())); int arg=a.id; if (ctx().nodes[arg].op==NEG) arg=ctx().nodes[arg].a; if (ctx().nodes[arg].op==ABS) return Real::from(arg); return Real::from(ctx().mk(ABS,arg,-1,0,std::fabs(a.val()))); }
 inline Real fabs(const Real& a){ return abs(a); }
 inline Real abs2(const Real& a){ return a*a; }
 inline Real min(const Real& a, const Real& b){ return (b<a)?b:a; }
